@@ -106,7 +106,7 @@ def eval_dyad_amend_in_depth(a, b):
                       [[[0]]]:-1,[0 0 0]  -->  [[[1]]]
 
     """
-    return _e_dyad_amend_in_depth(a, b[1:], b[0])
+    return _e_dyad_amend_in_depth(a, bknp.asarray(list(b[1:]), dtype=int), b[0])
 
 
 def eval_dyad_cut(a, b, backend):
